@@ -2753,10 +2753,16 @@ func genChallengeString(rng *rand.Rand) string {
 	var cs []string
 	for i := 0; i < n; i++ {
 		s := schemes[rng.Intn(len(schemes))]
-		np := rng.Intn(4)
+		np := rng.Intn(5)
 		var ps []string
 		for j := 0; j < np; j++ {
 			k, v := keys[rng.Intn(len(keys))], vals[rng.Intn(len(vals))]
+			if j > 0 && rng.Intn(4) == 0 {
+				// a duplicate of an earlier parameter of this challenge, in another case: the last one counts
+				prev, _, _ := strings.Cut(ps[rng.Intn(len(ps))], "=")
+				prev = strings.TrimSpace(prev)
+				k = []string{strings.ToUpper(prev), strings.ToLower(prev), prev}[rng.Intn(3)]
+			}
 			if rng.Intn(4) == 0 && !strings.ContainsAny(v, "\", \\") {
 				ps = append(ps, k+"="+v)
 			} else {
